@@ -162,6 +162,149 @@ def random_program(rng, ntests):
     return ex
 
 
+def long_program(rng, ntests, sparse=False):
+    """Seeded LONG run (hundreds to tens of thousands of tests; the property speaks of runs of every length).  The point is AGE:
+    blocks that tests leave behind (expected leaks, ignored leaks, leaks that were reported, leaks of tests that failed on their
+    own), blocks allocated before the first test and between tests, and copies of leak failures kept by the output stay
+    outstanding while hundreds or thousands of clean and leaking tests follow; some are released by a much later test (or
+    between two much later tests), some never.  Tests are short (0-6 operations, so that the log stays compact) and of every
+    kind: empty, clean, leaking, declaring (right and wrong), ignoring, failing, releasing blocks of (much) earlier tests with
+    and without a leak of their own, growing an old block without success.  `held' blocks are meant to stay (each test that
+    releases foreign blocks picks one of them with a small probability only, `pinned' ones are never released), `loose' ones
+    are released by one of the next tests, so the number of outstanding blocks stays bounded however long the run is.
+    sparse: most tests are empty or clean (for the longest runs).  Returns (program, ages): the largest number of tests that
+    ended while one and the same block was outstanding, for blocks allocated by a test ("test") and for the others ("other":
+    allocated between tests, copies kept by the output) - measured from the script."""
+    ex, nid = [], 1
+    mal, born, bytest = set(), {}, set()
+    held, loose, pinned = [], [], set()
+    nb = rng.choice([1, 2, 3, 6])
+    ages = {"test": 0, "other": 0}
+    kinds = ["empty", "clean", "leak", "expected", "wrong", "ignore", "fail", "release", "release+leak", "rfail"]
+    base = [30, 40, 4, 3, 2, 2, 2, 6, 3, 2] if sparse else [4, 10, 6, 5, 3, 3, 3, 8, 5, 2]
+    weights = [w * rng.choice([1, 1, 2]) for w in base]
+    early = rng.randrange(2, 16)          # the first tests leave most of what they allocate to the rest of the run
+
+    def bucket():
+        return 0 if rng.random() < 0.15 else rng.randrange(1, nb + 1)
+
+    def alloc(ph, t):
+        nonlocal nid
+        fam = 1 if rng.random() < 0.5 else 0
+        ex.append(["alloc", ph, nid, 0, bucket(), fam])
+        if fam:
+            mal.add(nid)
+        born[nid] = t
+        if ph != "o":
+            bytest.add(nid)
+        nid += 1
+        return nid - 1
+
+    def seen(i, t):
+        k = "test" if i in bytest else "other"
+        ages[k] = max(ages[k], t - born[i])
+
+    def leave(ids, t):
+        for i in ids:
+            first = i in bytest and not (pinned & bytest)      # the first block a test leaves stays to the end of the run
+            if first or (len(held) < 16 and rng.random() < (0.7 if t <= early else 0.08)):
+                held.append(i)
+                if first or (rng.random() < 0.4 and len(pinned) < 8):
+                    pinned.add(i)
+            else:
+                loose.append(i)
+
+    def pick_foreign():
+        """a block of an earlier test / of the time between tests: a loose one as a rule, a held one now and then"""
+        cand = [i for i in held if i not in pinned]
+        if cand and (not loose or rng.random() < 0.15):
+            i = rng.choice(cand); held.remove(i)
+            return i
+        if loose:
+            i = loose.pop(rng.randrange(len(loose)))
+            return i
+        return None
+
+    def phases(n):
+        return sorted((rng.choice("sbbbt") for _ in range(n)), key="sbt".index)
+
+    for t in range(1, ntests + 1):
+        # between tests (before the first one too)
+        r = rng.random()
+        if r < (0.6 if t == 1 else 0.06):
+            for _ in range(rng.choice([1, 2, 3]) if t == 1 else 1):
+                leave([alloc("o", t - 1)], t)
+        elif r < 0.16 or len(loose) > 12:
+            i = pick_foreign()
+            if i is not None:
+                seen(i, t - 1); ex.append(["free", "o", i, 0, 0, 0])
+        ex.append(["begin", "o", 0, 0, 0, 0])
+        kind = rng.choices(kinds, weights)[0]
+        if len(loose) > 8 and rng.random() < 0.5:
+            kind = "release"
+        if t <= early and rng.random() < 0.7:
+            kind = rng.choice(["leak", "expected", "expected", "ignore", "fail", "wrong"])
+        ops = []           # (op, arg) in program order; phases are dealt out afterwards
+        reported = False   # the test gets a leak failure by construction (the output may then keep a copy of it)
+        k = rng.choice([1, 1, 1, 2, 3])
+        if kind == "clean":
+            ops = [("alloc", None)] * k + [("freeown", None)] * k
+        elif kind in ("leak", "release+leak"):
+            ops = [("alloc", None)] * k
+            reported = True
+            if kind == "release+leak":       # releasing an earlier test's block does not offset the new leak
+                ops.insert(rng.randrange(len(ops) + 1), ("freeold", None))
+        elif kind == "expected":
+            ops = [("alloc", None)] * k
+            ops.insert(rng.randrange(len(ops) + 1), ("expect", k))
+        elif kind == "wrong":
+            n = rng.choice([x for x in (0, 1, 2, 3, 4) if x != k])
+            ops = [("alloc", None)] * k
+            ops.insert(rng.randrange(len(ops) + 1), ("expect", n))
+            reported = True
+        elif kind == "ignore":
+            ops = [("alloc", None)] * k
+            ops.insert(rng.randrange(len(ops) + 1), ("ignore", 0))
+        elif kind == "fail":
+            ops = [("alloc", None)] * k + [("fail", 0)]      # the failing check is the last step of the test: everything before it runs
+        elif kind == "release":
+            ops = [("freeold", None)] * rng.choice([1, 1, 2])
+            if rng.random() < 0.4:
+                ops += [("alloc", None), ("freeown", None)]
+        elif kind == "rfail":
+            ops = [("rfail", None)]
+        own = []
+        for (op, arg), ph in zip(ops, phases(len(ops))):
+            if op == "alloc":
+                own.append(alloc(ph, t))
+            elif op == "freeown":
+                ex.append(["free", ph, own.pop(rng.randrange(len(own))), 0, 0, 0])
+            elif op == "freeold":
+                i = pick_foreign()
+                if i is not None:
+                    seen(i, t - 1); ex.append(["free", ph, i, 0, 0, 0])
+            elif op == "rfail":
+                cand = [i for i in held + loose if i in mal]
+                if cand:
+                    ex.append(["rfail", ph, rng.choice(cand), 0, 0, 1])
+            else:
+                ex.append([op, ph, arg, 0, 0, 0])
+        pf = 1 if rng.random() < 0.03 else 0          # another plugin reports a failure before the leak verdict
+        if rng.random() < 0.1:
+            ex.append(["end", "o", nid, pf, bucket(), 0])          # the output keeps a copy of the leak failure (if there is one)
+            if reported and not pf:
+                born[nid] = t
+                leave([nid], t)
+            nid += 1
+        else:
+            ex.append(["end", "o", 0, pf, 0, 0])
+        leave(own, t)
+    for i in held + loose:
+        seen(i, ntests)
+    ex.append(["final", "o", 0, 0, 0, 0])
+    return ex, ages
+
+
 def nontrivial(e):
     return any(l[0] in ("free", "realloc", "rfail", "expect", "ignore", "fail") for l in e) and any(l[0] == "alloc" for l in e)
 
@@ -227,13 +370,31 @@ def run(ctx):
     for e in progs:
         o, n = chain_shapes(e)
         shapes["older"] += o; shapes["newer"] += n
+    # ---- leg 4: seeded LONG runs: blocks left by early tests stay outstanding while hundreds / thousands of tests follow.
+    # Lengths on both sides of the run lengths at which narrow counters and stamps start again (2^8 tests; thorough: 2^16 too).
+    sizes = [ctx.rng.randrange(300, 900) for _ in range(2 if quick else 8)]
+    if not quick:
+        sizes += [ctx.rng.randrange(2000, 6000) for _ in range(4)] + [ctx.rng.randrange(66000, 72000)]
+    longs = [long_program(ctx.rng, n, sparse=n > 10000) for n in sizes]
+    for n, (e, ages) in zip(sizes, longs):
+        if ages["test"] < n // 2:
+            raise Infra("the long-run driver no longer keeps a block allocated by a test outstanding for half of a run: %s of %d tests" % (ages, n))
+    ctx.sample({"source": "seeded long-run driver (%d tests)" % sizes[0], "program": ["\t".join(map(str, l)) for l in longs[0][0][:24]]})
+    conform(ctx, "long", [e for e, _ in longs], run_h, "Trace_LeakPlugin", tcfg, pcfg, key_fn, tlc_timeout=1800)
+    ctx.evaluations += sum(len(e) for e, _ in longs)
+    distinct.update(json.dumps(e[:60]) for e, _ in longs)
+    ctx.notes["long_runs"] = {"tests_per_run": sizes,
+                              "most_tests_that_ended_while_one_block_allocated_by_a_test_stayed_outstanding": max(a["test"] for _, a in longs),
+                              "same_for_blocks_allocated_between_tests_or_kept_by_the_output": max(a["other"] for _, a in longs)}
     ctx.notes["programs_where_a_test_ends_with_a_foreign_record_in_the_chain_of_one_of_its_blocks"] = \
         {"behind_it (older record)": shapes["older"], "in_front_of_it (re-inserted / reporting-time record)": shapes["newer"]}
     if not shapes["older"] or not shapes["newer"]:
         raise Infra("the generated programs no longer put foreign records behind and in front of a test's blocks in a shared chain: %s" % shapes)
     return ctx.finish(
         rule="executions = TLC-generated programs of LeakPlugin (exhaustive to depth D over 2 tests; simulation to 60 steps over up to 12 tests) "
-             "+ seeded random runs of 20-200 tests, each run through the real TestRegistry/UtestShell/Utest lifecycle with the real "
+             "+ seeded random runs of 20-200 tests + seeded long runs (300-900 tests; thorough: also 2000-6000 and one of about 70 000) in which "
+             "blocks left by early tests, allocated between tests or kept by the output stay outstanding while the rest of the run goes on, "
+             "each run through the real TestRegistry/UtestShell/Utest lifecycle with the real "
              "MemoryLeakWarningPlugin and detector and the real global operator new[] / malloc / realloc / free, over arena allocators that put "
              "each block into the hash bucket the program chose; distinct = distinct programs (placements included); non-trivial = allocates "
              "and also releases, re-allocates, declares, ignores or fails",
@@ -247,4 +408,6 @@ def run(ctx):
                      "an address of the designated bucket (address % 73) the script names, or the real malloc's address (bucket 0 of the script)",
                      "a moving realloc yields a block allocated by whoever re-allocated it (old block released); a failing realloc (out of memory) "
                      "changes nothing; only malloc-family blocks are re-allocated",
-                     "an output that keeps a tracked copy of a leak failure allocates it while the failure is reported: the copy belongs to no test"])
+                     "an output that keeps a tracked copy of a leak failure allocates it while the failure is reported: the copy belongs to no test",
+                     "long runs: the harness's own test output drops progress text (no part of the projection); the trace walk keeps the ghost "
+                     "record of the last finished test and the set of outstanding blocks left by the tests before it, not the whole history"])
